@@ -176,6 +176,39 @@ def test(inp):
             if k2 in seen:
                 return f'{g}: the names {seen[k2]!r} and {new_name!r} give one key'
             seen[k2] = new_name
+    # the same values held in dask arrays, chunked along the first / a later / every dimension: the key is that of the values, not of the chunk
+    # layout (the buffers are swapped in place: attribute objects, and their reference counts, stay exactly as they were)
+    import dask.array
+    for label in ('one chunk', 'the first dimension', 'a later dimension', 'every dimension'):
+        base = datasets.build(spec)
+        touched = False
+        for g in geometry_names(base):
+            v = base[g]
+            if v.ndim == 0:
+                continue
+            if label == 'one chunk':
+                chunks = v.shape
+            elif label == 'the first dimension':
+                chunks = (max(1, v.shape[0] // 2),) + v.shape[1:]
+            elif label == 'a later dimension':
+                if v.ndim < 2:
+                    continue
+                chunks = (v.shape[0],) + tuple(max(1, n // 2) for n in v.shape[1:])
+            else:
+                chunks = tuple(1 for _ in v.shape)
+            try:
+                base[g].variable.data = dask.array.from_array(numpy.ascontiguousarray(v.values), chunks=chunks)
+            except ValueError:
+                continue            # an index coordinate cannot be held in a dask array
+            touched = True
+        if not touched:
+            continue
+        try:
+            k2 = make_cache_key(base)
+        except Exception as e:
+            return f'chunked along {label}: make_cache_key raised {type(e).__name__}: {e}'
+        if k2 != key:
+            return f'the same values in dask arrays chunked along {label} give another key'
     # F-ordered storage of the same values must give the same key
     for g in geometry_names(ds):
         base = datasets.build(spec)
